@@ -140,8 +140,6 @@ def check_case(doc, exps, meta, loose):
 
 def correspondence(ctx):
     rng = ctx.rng
-    lines, exp, meta = [], [], []
-    dist = {"docs": 0, "strict": 0, "loose": 0, "unmodelled_docs": 0, "events": 0}
     docs = []
     for _ in range(ctx.n(250, 4000)):
         d, _e, _m = gen_case(rng)
@@ -152,40 +150,7 @@ def correspondence(ctx):
     docs += [b'<rss version="2.0"><channel><comments>rel/x</comments><docs>http://a/</docs><item><wfw:comment xmlns:wfw="http://wellformedweb.org/CommentAPI/">c</wfw:comment><foo>1</foo><foo>2</foo></item></channel></rss>',
              b'<rdf:RDF xmlns:rdf="http://www.w3.org/1999/02/22-rdf-syntax-ns#" xmlns="http://purl.org/rss/1.0/"><channel rdf:about="http://a/"><x:y xmlns:x="urn:x">t</x:y></channel><item rdf:about="http://a/1"><date>2004</date></item></rdf:RDF>',
              b'<feed xmlns="http://www.w3.org/2005/Atom" xml:lang="en_US" xml:base="http://b/"><icon>i.png</icon><entry xml:lang=""><logo>l.png</logo><a:b xmlns:a="urn:a" c="d"/></entry><entry><x>1<y>2</y>3</x></entry></feed>']
-    for d in docs:
-        loose = rng.random() < 0.4
-        r, log = tr.traced_parse(d, {"content-location": BASE, "content-type": "application/xml; charset=utf-8"}, loose=loose)
-        ran_loose = loose or (not isinstance(r, Exception) and bool(r.get("bozo")) and any(rec["k"] == "start" for rec in log))
-        # which back end produced the LAST run? (strict failure => loose second run)
-        last_loose = loose or (not isinstance(r, Exception) and bool(r.get("bozo")))
-        ls, ex = mixlib.lines_for(log, last_loose, r)
-        if not ls:
-            continue
-        dist["docs"] += 1
-        dist["loose" if last_loose else "strict"] += 1
-        for l, e in zip(ls, ex):
-            lines.append(l)
-            exp.append(e)
-            meta.append((d, last_loose))
-        dist["events"] += len(ls)
-    got = vlib.run_driver(lines)
-    # split per document at 'mix reset'
-    dis, seen = [], set()
-    i = 0
-    while i < len(lines):
-        j = i + 1
-        while j < len(lines) and not lines[j].startswith("mix reset"):
-            j += 1
-        c = mixlib.compare(got[i:j], exp[i:j])
-        if c and c[0] == "unmodelled":
-            dist["unmodelled_docs"] += 1
-        elif c and meta[i] not in seen:
-            seen.add(meta[i])
-            if len(dis) < 20:
-                dis.append({"doc": meta[i][0], "loose": meta[i][1], "line": lines[i + c[1]][:200], "model": c[2][:400], "impl": c[3][:400]})
-        i = j
-    return {"cases": len(lines), "distinct": len(set(lines)), "unmodelled": dist["unmodelled_docs"], "disagreements": dis, "distribution": dist,
-            "samples": [{"doc": docs[0].decode()[:300]}]}
+    return mixlib.corr(ctx, docs, {"content-location": BASE, "content-type": "application/xml; charset=utf-8"})
 
 
 def search(ctx, focus=None):
